@@ -50,6 +50,7 @@ ATTRS = {
     (None, "dbxrefs"): ("pr_dbxrefs", "pure"),
     (None, "id"): ("pr_id", "pure"),
     ("feature", "id"): ("feat_id", "pure"),
+    ("item", "id"): ("item_id", "pure"),
     ("feature", "type"): ("feat_type", "pure"),
     ("feature", "qualifiers"): ("feat_qualifiers", "pure"),
     ("feature", "location"): ("feat_location", "pure"),
@@ -99,6 +100,7 @@ FUNCS = {
     "SeqFeature/3": dict(coq="mk_SeqFeature3", kind="pure", params=["location", "type", "qualifiers"]),
     "FeatureLocation/2": dict(coq="mk_FeatureLocation2", kind="pure"),
     "isabstract": dict(coq="pcl_isabstract", kind="pure"),
+    "iter": dict(coq="dict_keys", kind="pure"),
     "copy.deepcopy": dict(coq="py_deepcopy", kind="pure"),
     "SeqRecord": dict(coq="mk_SeqRecord", kind="pure"),
     "SeqRecord/1": dict(coq="mk_SeqRecord1", kind="pure"),
@@ -426,7 +428,7 @@ class Fn(object):
             return b, "tt"
         if src == "six.raise_from":
             return self.expr(e.args[0])
-        if src == "six.iteritems":
+        if src in ("six.iteritems", "six.itervalues"):
             return self.expr(e.args[0])
         if src == "Seq" and len(e.args) == 1 and isinstance(e.args[0], ast.Constant) and e.args[0].value == "":
             return [], "(mk_Seq [])"
@@ -482,6 +484,10 @@ class Fn(object):
         if (isinstance(e.value, ast.Attribute) and e.value.attr == "args" and isinstance(e.value.value, ast.Name)
                 and e.value.value.id in self.excvars and isinstance(s, ast.Constant) and s.value == 0):
             return [], cname(e.value.value.id)
+        if ast.unparse(e.value) == "self._data" and self.spec.get("selfdict"):
+            bk, ak = self.expr(s)
+            t = self.fresh()
+            return bk + [("bind", t, "dict_getitem_str self %s" % ak)], t
         b, a = self.expr(e.value)
         if isinstance(s, ast.Slice):
             if s.step is not None:
@@ -552,6 +558,9 @@ class Fn(object):
                 else:
                     t = "(py_eq %s %s)" % (l, r)
                 terms.append(t if isinstance(op, ast.Eq) else "(negb %s)" % t)
+            elif isinstance(op, (ast.In, ast.NotIn)) and ast.unparse(rn) == "self._data" and self.spec.get("selfdict"):
+                t = "(dict_mem_str self %s)" % l
+                terms.append(t if isinstance(op, ast.In) else "(negb %s)" % t)
             elif isinstance(op, (ast.In, ast.NotIn)):
                 if isinstance(ln, ast.Constant) and isinstance(ln.value, str) and ln.value.isidentifier():
                     t = "(ann_has_%s %s)" % (ln.value, r)
@@ -669,6 +678,8 @@ class Fn(object):
                 if isinstance(s.value, ast.Call) and ast.unparse(s.value.func) == "warnings.warn":
                     add("warnings_acc")
                 if isinstance(s.value, ast.Call) and self.call_entry(s.value).get("returns_self"):
+                    add("self")
+                if isinstance(s.value, ast.Call) and ast.unparse(s.value.func) == "self._data.setdefault":
                     add("self")
             elif isinstance(s, (ast.For, ast.While)):
                 inner = self.assigned(s.body, cur)
@@ -851,6 +862,11 @@ class Fn(object):
             b, atoms = self.args_of(v)
             x = cname(v.func.value.value.id)
             return self.bind_text(b) + "let %s := rec_append_feature %s %s in\n" % (x, x, atoms[0]) + cont(defined)
+        if (isinstance(v, ast.Call) and isinstance(v.func, ast.Attribute) and v.func.attr == "setdefault"
+                and ast.unparse(v.func.value) == "self._data" and self.spec.get("selfdict")):
+            b, atoms = self.args_of(v)
+            return self.bind_text(b) + "let self := snd (dict_setdefault %s self %s) in\n" % (
+                self.spec["selfdict"], " ".join(atoms)) + cont(defined)
         if isinstance(v, ast.Call):
             b, a = self.expr(v)
             if self.call_entry(v).get("returns_self"):
